@@ -125,7 +125,9 @@ class Ctx:
                     "--exclude", "*", COQ_SHARED + "/", COQ + "/"], timeout=300)
         shutil.rmtree(self.work, ignore_errors=True)
         os.makedirs(self.work, exist_ok=True)
-        os.makedirs(os.path.join(ROOT, "evidence"), exist_ok=True)
+        # evidence is written to /verif/evidence unless a run against a scratch worktree redirects it
+        self.evidence_dir = os.environ.get("VERIF_EVIDENCE_DIR") or os.path.join(ROOT, "evidence")
+        os.makedirs(self.evidence_dir, exist_ok=True)
         self.broken = []          # list of (what, detail)
         self.findings = []        # concrete failing inputs: dicts with 'key','what','replay'
         self.info = []            # informational notes
@@ -464,7 +466,7 @@ class Ctx:
         if cov["obligations"] < 1 or cov["discharged"] < 1:
             # proof broken: keep the file schema-valid by falling back to the generic keys
             cov["discharged_count"] = cov.pop("discharged")
-        with open(os.path.join(ROOT, "evidence", self.pid + ".json"), "w") as f:
+        with open(os.path.join(self.evidence_dir, self.pid + ".json"), "w") as f:
             json.dump(ev, f, indent=1, default=str)
         for w, d in self.broken[:6]:
             self.log("BROKEN:", w)
